@@ -4,6 +4,7 @@
 From Coq Require Import List ZArith QArith Qcanon Bool Arith Permutation Sorting.Sorted.
 From Dimod Require Import Base.Util Model.Poly Model.Samples Model.SSet Proofs.SamplesFacts Proofs.SSetFacts
   Proofs.SSetAgg Proofs.SSetMore Proofs.SSetSort Model.ChkC14 Gen.Gen_Narrow Model.Narrow Proofs.NarrowFacts.
+From Dimod Require Model.Alias Proofs.AliasFacts Gen.Gen_Hooks Proofs.AliasGenFacts Proofs.SSetReads.
 Import ListNotations.
 Open Scope Qc_scope.
 
@@ -375,6 +376,113 @@ Print Assumptions C14_narrow_value_error_iff.
 Theorem C14_narrow_candidates_increasing : gen_narrow_candidates = [8; 16; 32; 64]%nat.
 Proof. exact narrow_candidates_increasing. Qed.
 Print Assumptions C14_narrow_candidates_increasing.
+
+(* ---- future-backed sample sets on a heap with shared records (Model/Alias.v) ---- *)
+(* SampleSet.resolve() of any object, in a history without change_vartype, leaves every readable sample set as it is *)
+Theorem C14_alias_resolve_keeps_every_readable_set : forall fuel h i h' ok j s,
+  AliasFacts.no_chvt h -> AliasFacts.ordered h -> AliasFacts.wf h ->
+  Alias.aresolve fuel h i = (h', ok) -> Alias.view h j = Some s -> Alias.view h' j = Some s.
+Proof. exact AliasFacts.resolve_keeps_views. Qed.
+Print Assumptions C14_alias_resolve_keeps_every_readable_set.
+
+(* one relabel_variables call (receiver resolved, done-but-unread or pending; in place or not): no readable sample
+   set's rows / vartype / info / data vectors change, and only the receiver of an in-place call changes labels *)
+Theorem C14_alias_relabel_call_frame : forall h i m b offf h' ret,
+  AliasFacts.good h -> Alias.acall h i (DRelabel m b) offf = (h', ret) ->
+  AliasFacts.good h' /\ AliasFacts.kept h h' (if b then Some i else None).
+Proof. exact AliasFacts.relabel_call_frame. Qed.
+Print Assumptions C14_alias_relabel_call_frame.
+
+(* any history of from_future / set_result / relabel_variables / reads, of any length *)
+Theorem C14_alias_relabel_history_frame : forall l h, AliasFacts.good h -> forallb Alias.is_relabel_ev l = true ->
+  AliasFacts.good (AliasFacts.arun h l) /\
+  forall j s, Alias.view h j = Some s ->
+    exists s', Alias.view (AliasFacts.arun h l) j = Some s' /\ rws s' = rws s /\ vt s' = vt s /\ info s' = info s
+               /\ fields s' = fields s /\ (AliasFacts.never_receiver j l -> labels s' = labels s).
+Proof. exact AliasFacts.relabel_history_frame. Qed.
+Print Assumptions C14_alias_relabel_history_frame.
+
+(* the future's own result object is never altered by relabelling sample sets built from the future *)
+Theorem C14_alias_future_result_never_altered_by_relabel : forall s ei sn l,
+  forallb Alias.is_relabel_ev l = true -> AliasFacts.never_receiver 0 l ->
+  Alias.view (AliasFacts.arun Alias.aempty (Alias.ENewObj s ei sn :: l)) 0 = Some s.
+Proof. exact AliasFacts.future_result_never_altered_by_relabel. Qed.
+Print Assumptions C14_alias_future_result_never_altered_by_relabel.
+
+(* last clause of the property on the heap model: relabel_variables(inplace=True) issued any number of times on an
+   unresolved from_future sample set gives, once resolved, exactly what the same relabels give on the future's result
+   (`resolve` of Model/SSet.v, the DeferCase reading), raising exactly when they raise *)
+Theorem C14_alias_pending_relabels_resolve_like_resolved : forall K fuel h i b post r ls v inf,
+  Alias.futdone h = true ->
+  nth_error (Alias.objs h) i = Some (Alias.APending (Alias.HResult b) post) ->
+  nth_error (Alias.objs h) b = Some (Alias.AResolved r ls v inf) ->
+  let base := mkSS ls v (Alias.crows (Alias.get_cell h r)) inf (Alias.cfields (Alias.get_cell h r)) in
+  match resolve K (map ORelabel post) base with
+  | Some s => exists h', Alias.aresolve (S fuel) h i = (h', true) /\ Alias.view h' i = Some s
+  | None => exists h', Alias.aresolve (S fuel) h i = (h', false)
+  end.
+Proof. exact AliasFacts.pending_relabels_resolve_like_resolved. Qed.
+Print Assumptions C14_alias_pending_relabels_resolve_like_resolved.
+
+(* ... and the same for the wrapper returned by relabel_variables(inplace=False) on an unresolved receiver *)
+Theorem C14_alias_pending_wrapper_resolves_like_resolved : forall K fuel h j i m post h1 r ls v inf,
+  nth_error (Alias.objs h) j = Some (Alias.APending (Alias.HWrapRelabel i m) post) ->
+  Alias.aresolve fuel h i = (h1, true) ->
+  nth_error (Alias.objs h1) i = Some (Alias.AResolved r ls v inf) ->
+  nth_error (Alias.objs h1) j = Some (Alias.APending (Alias.HWrapRelabel i m) post) ->
+  let recv := mkSS ls v (Alias.crows (Alias.get_cell h1 r)) inf (Alias.cfields (Alias.get_cell h1 r)) in
+  match resolve K (ORelabel m :: map ORelabel post) recv with
+  | Some s => exists h', Alias.aresolve (S fuel) h j = (h', true) /\ Alias.view h' j = Some s
+  | None => exists h', Alias.aresolve (S fuel) h j = (h', false)
+  end.
+Proof. exact AliasFacts.pending_wrapper_resolves_like_resolved. Qed.
+Print Assumptions C14_alias_pending_wrapper_resolves_like_resolved.
+
+(* as the code is, the relabel frame does NOT extend to change_vartype: converting a from_future sample set in place
+   rewrites the samples of the future's own result object (its vartype tag stays) - witness on the faithful model *)
+Theorem C14_alias_future_result_kept_under_change_vartype_refuted :
+  exists s l, Alias.view (AliasFacts.arun Alias.aempty (Alias.ENewObj s false false :: l)) 0 <> Some s
+              /\ forall e, In e l -> Alias.ev_receiver e <> Some 0%nat.
+Proof. exact AliasFacts.future_result_altered_by_inplace_change_vartype_witness. Qed.
+Print Assumptions C14_alias_future_result_kept_under_change_vartype_refuted.
+
+(* the hook variants the heap model implements are the ones found in the source (generated, fail-closed) *)
+Theorem C14_alias_hook_constants_match_source :
+  Gen_Hooks.gen_relabel_composed_hook_inplace = Alias.model_relabel_composed_hook_inplace
+  /\ Gen_Hooks.gen_relabel_wrapper_hook_inplace = Alias.model_relabel_wrapper_hook_inplace
+  /\ Gen_Hooks.gen_change_vartype_wrapper_hook_inplace = Alias.model_change_vartype_wrapper_hook_inplace
+  /\ Gen_Hooks.gen_resolve_shares_record = Alias.model_resolve_shares_record
+  /\ Gen_Hooks.gen_copy_copies_record = Alias.model_copy_copies_record
+  /\ Gen_Hooks.gen_relabel_inplace_default = true /\ Gen_Hooks.gen_change_vartype_inplace_default = true.
+Proof. exact AliasGenFacts.hook_constants_match_source. Qed.
+Print Assumptions C14_alias_hook_constants_match_source.
+
+(* SampleSet.data(sorted_by, reverse=True, index=True): exactly the stable sorted rows, reversed *)
+Theorem C14_data_reverse_rows : forall (key : row -> Qc) rows,
+  select rows (rev (argsort_stable (map key rows))) = rev (rsort key rows).
+Proof. exact SSetReads.data_reverse_rows. Qed.
+Print Assumptions C14_data_reverse_rows.
+
+(* concatenate over DIFFERENT data vectors (defaults= given or not): whole rows move *)
+Theorem C14_concat_other_vectors_first_rows_kept : forall others defs s r,
+  concat_d others defs s = Some r ->
+  labels r = labels s /\ vt r = vt s
+  /\ firstn (length (rws s)) (rws r) = map (refield (fields r) defs (fields s)) (rws s)
+  /\ fields r = union_fields (fields s) (map fields others).
+Proof. exact SSetReads.concat_d_first_rows_kept. Qed.
+Print Assumptions C14_concat_other_vectors_first_rows_kept.
+
+Theorem C14_concat_other_vectors_refield_keeps_row : forall res defs fs r,
+  vals (refield res defs fs r) = vals r /\ en (refield res defs fs r) = en r
+  /\ oc (refield res defs fs r) = oc r /\ tag (refield res defs fs r) = tag r.
+Proof. exact SSetReads.refield_keeps. Qed.
+Print Assumptions C14_concat_other_vectors_refield_keeps_row.
+
+Theorem C14_concat_other_vectors_row_count : forall others defs s r,
+  concat_d others defs s = Some r ->
+  length (rws r) = (length (rws s) + fold_right (fun o acc => length (rws o) + acc) 0 others)%nat.
+Proof. exact SSetReads.concat_d_row_count. Qed.
+Print Assumptions C14_concat_other_vectors_row_count.
 
 (* the hypotheses are satisfiable on non-trivial data *)
 Example C14_aggregate_example :
